@@ -139,6 +139,18 @@ def check_file(ctx, data, bs, scratch, roundtrip=True, tag="", other=None):
             if fi.get_fasta_seq(rec["name"]).sequence != rec["seq"]:
                 ctx.violation("get-fasta-seq", f"whole record {rec['name']} differs", case)
                 return
+        # 3b. whole records through the FastaSeq objects (all_fasta_seq / fasta_bytes / str)
+        seqs = list(fi.all_fasta_seq())
+        if [q.name for q in seqs] != [r["name"] for r in recs] or any(q.sequence != r["seq"] or q.length != len(r["seq"]) for q, r in zip(seqs, recs)):
+            ctx.violation("all-fasta-seq", f"records {[q.name for q in seqs][:5]} vs {[r['name'] for r in recs][:5]}", case)
+            return
+        for q, r in zip(seqs[:3], recs[:3]):
+            for w in (60, max(1, r["rpl"]), 7):
+                want_b = fasta_ref.wrap(r["name"], r["seq"], w)
+                if q.fasta_bytes(w) != want_b or q.__str__(w) != want_b.decode("latin-1"):
+                    ctx.violation("fastaseq-record-text", f"{r['name']} width {w}: {q.fasta_bytes(w)[:120]!r} expected {want_b[:120]!r}", case)
+                    return
+            ctx.count("fastaseq:records-printed")
         # 4. stream the derived assembly back
         out = io.BytesIO()
         FastaStream(out, fi).write_assembly(asm)
@@ -153,7 +165,11 @@ def check_file(ctx, data, bs, scratch, roundtrip=True, tag="", other=None):
         now = p.stat().st_mtime
         os.utime(p, (now - 100, now - 100))
         f1 = FastaIndex(p, bs)
-        f1.auto_load()
+        try:
+            f1.auto_load()
+        except Exception as e:  # noqa: BLE001 - a well-formed file must index through the caching route too
+            ctx.violation(f"auto-load-raised-{type(e).__name__}", f"FastaIndex.auto_load() on a well-formed file (in {p.parent}): {type(e).__name__}: {e}", case)
+            return
         fai_txt = Path(str(p) + ".fai").read_text()
         want_fai = "".join("\t".join(str(x) for x in fasta_ref.quintuple(r)) + "\n" for r in recs)
         if fai_txt != want_fai:
